@@ -9,6 +9,11 @@ import (
 //
 // XXX uid-in-cache = uid - 1
 func SetUMoney(uid ptttype.UID, money int32) (int32, error) {
+	if uid <= 0 || uid > ptttype.MAX_USERS {
+		log.Errorf("SetUMoney: uid is invalid: uid: %v money: %v", uid, money)
+		return -1, ErrInvalidUID
+	}
+
 	uidInCache := uid.ToUIDInStore()
 	Shm.Shm.Money[uidInCache] = money
 
